@@ -35,7 +35,7 @@ func init() {
 		RequiredCounters: []string{"accept_expected_and_observed", "reject_expected_and_observed", "write_faults_injected", "reader_faults_injected", "trailing_data_rejected", "nested_calls_from_io_callbacks"},
 		Assumptions:      []string{"a reader error other than io.EOF at or after the last field is a failed read, so rejection is expected", "honest proofs come from the library's own prover (their validity is C01's subject)"},
 		Plan: func(tier string) []Child {
-			return shardsVar(pick(tier, 12, 16), Child{Flavour: "plain", NCPU: 1})
+			return plus386(shardsVar(pick(tier, 12, 16), Child{Flavour: "plain", NCPU: 1}), 1)
 		},
 		Run: runC10,
 	})
@@ -251,6 +251,14 @@ func c10mutations(rng *rand.Rand, base []byte, pool *Pool) []c10str {
 	put(17, le(new(big.Int)), "0")
 	put(17, be32(new(big.Int).Sub(r, bigOne)), "r-1-bigendian")
 	put(17, le(new(big.Int).Add(r, randBig(rng, r))), "r+random")
+	// valid scalars of every width class (one, two, three words; small in one word; limb-structured): accepted, and
+	// Write must reproduce them
+	es := edgeScalars()
+	for k := 0; k < 6; k++ {
+		put(17, le(es[rng.Intn(len(es))]), "valid-edge-value")
+	}
+	put(17, le(big.NewInt(int64(1+rng.Intn(1<<30)))), "valid-below-2^32")
+	put(17, le(new(big.Int).Add(new(big.Int).Lsh(bigOne, uint(64*(1+rng.Intn(3)))), big.NewInt(int64(rng.Intn(1<<30))))), "valid-2^64k+small")
 	ns := limbNeighbours(r, rng)
 	for k := 0; k < 4; k++ {
 		put(17, le(ns[rng.Intn(len(ns))]), "limb-neighbour-of-r")
@@ -642,12 +650,18 @@ type failWriter struct {
 	calls  int
 	failAt int
 	short  bool
+	full   bool
 	buf    bytes.Buffer
 }
 
 func (w *failWriter) Write(p []byte) (int, error) {
 	defer func() { w.calls++ }()
 	if w.calls == w.failAt {
+		if w.full {
+			// everything was taken (buffered) and the failure is reported with the full count
+			w.buf.Write(p)
+			return len(p), errInjected
+		}
 		if w.short && len(p) > 1 {
 			w.buf.Write(p[:len(p)/2])
 			return len(p) / 2, io.ErrShortWrite
@@ -684,6 +698,11 @@ func c10write(c *mon.Ctx, valid []byte, rng *rand.Rand) {
 			}
 			c.Eval(fmt.Sprintf("MultiProof.Write|fail-at-call|%d|short=%v", at, short), true)
 		}
+		wf := &failWriter{failAt: at, full: true}
+		if err := mp.Write(wf); err == nil {
+			c.Fail("write-error-ignored/MultiProof.Write/full-count", fmt.Sprintf("MultiProof.Write returned nil although write call %d of %d returned (len(p), error)", at, n), nil)
+		}
+		c.Count("write_faults_injected", 1)
 	}
 	// a writer that is itself a user of the library: before accepting one of the chunks it reads and writes another proof
 	for _, at := range []int{0, rng.Intn(n)} {
